@@ -2104,13 +2104,11 @@ fn perform_cast(op: &String, cast: &Bitcast) -> String {
         Bitcast::P64ToI64 => op.to_string(),
         Bitcast::LToI64 | Bitcast::PToP64 => format!("(long) ({op})"),
         Bitcast::I64ToL | Bitcast::P64ToP => format!("(int) ({op})"),
-        Bitcast::I32ToP
-        | Bitcast::PToI32
-        | Bitcast::I32ToL
-        | Bitcast::LToI32
-        | Bitcast::LToP
-        | Bitcast::PToL
-        | Bitcast::None => op.to_owned(),
+        // `nint` converts to `int` only explicitly.
+        Bitcast::PToI32 | Bitcast::PToL => format!("(int) ({op})"),
+        Bitcast::I32ToP | Bitcast::I32ToL | Bitcast::LToI32 | Bitcast::LToP | Bitcast::None => {
+            op.to_owned()
+        }
         Bitcast::Sequence(sequence) => {
             let [first, second] = &**sequence;
             perform_cast(&perform_cast(op, first), second)
